@@ -7,7 +7,7 @@ from pyvc.contracts import Any, Bool, BytesT, Const, ExtSpec, ExtT, Int, ListOfT
 from pyvc.values import BytesV, ExcV, Opaque, Opt, Ref, to_int_term
 
 from .a_common import UT, is_none
-from .a_tasks import T, TASK, TC, calls, exts, flat, index_of, trivial_loop
+from .a_tasks import T, TASK, TC, calls, exts, flat, index_of, trivial_loop, only_propagates
 from .spec import b2z, implies
 
 B = z3.BoolVal
@@ -61,7 +61,7 @@ def register(R):
     R.contract(
         f'{UT}:invoke_progress_callbacks', props=['C09'],
         params=dict(callbacks=ListOfT(ExtT('progress_cb')), bytes_transferred=Int),
-        checks=ipc_checks, raises={'Exception': lambda c: {}}, raise_when={'Exception': lambda c: None, 'OSError': lambda c: None},
+        checks=ipc_checks, raises={'Exception': only_propagates}, raise_when={'Exception': lambda c: None, 'OSError': lambda c: None},
         loops={0: trivial_loop()},
         effects=_count_reported,
     )
@@ -122,7 +122,7 @@ def register(R):
         f'{RFC}.read', props=['C01', 'C09'], params=dict(amount=OptT(Int)),
         requires=lambda c: [z3.Or(c.a_amount.is_none, c.a_amount.val >= 0)],
         setup=rfc_setup, ensures=read_post,
-        raises={'Exception': lambda c: {}}, raise_when={'Exception': lambda c: None},
+        raises={'Exception': only_propagates}, raise_when={'Exception': lambda c: None},
         returns=BytesT('src'),
     )
 
@@ -143,7 +143,7 @@ def register(R):
         f'{RFC}.seek', props=['C01', 'C09'], params=dict(where=Int, whence=Int),
         requires=lambda c: [z3.Or(c.a_whence == 0, c.a_whence == 1, c.a_whence == 2)],
         setup=rfc_setup, ensures=seek_post,
-        raises={'Exception': lambda c: {}}, raise_when={'Exception': lambda c: None},
+        raises={'Exception': only_propagates}, raise_when={'Exception': lambda c: None},
     )
     R.contract(f'{RFC}.tell', props=['C01'], params={}, ensures=lambda c: {'tell_is_position_in_window': c.result == c.oldf('_amount_read')}, returns=Int)
     R.contract(f'{RFC}.__len__', props=['C01'], params={}, ensures=lambda c: {'length_is_window_size': c.result == c.oldf('_size')}, returns=Int)
@@ -199,7 +199,7 @@ def register(R):
         }
 
     R.contract(f'{RFC}.close', props=['C09', 'C01'], params={}, checks=close_checks,
-               raises={'Exception': lambda c: {}}, raise_when={'Exception': lambda c: None}, loops={0: trivial_loop()})
+               raises={'Exception': only_propagates}, raise_when={'Exception': lambda c: None}, loops={0: trivial_loop()})
 
     # ------------------------------------------------------------------ AggregatedProgressCallback
     R.add_fields(AGG, _callbacks=ListOfT(ExtT('progress_cb')), _threshold=Int, _bytes_seen=Int)
@@ -226,14 +226,14 @@ def register(R):
 
     R.contract(f'{AGG}.__call__', props=['C09'], params=dict(bytes_transferred=Int), ensures=agg_call_post,
                inline_callees=[f'{AGG}._trigger_callbacks'],
-               raises={'Exception': lambda c: {}}, raise_when={'Exception': lambda c: None})
+               raises={'Exception': only_propagates}, raise_when={'Exception': lambda c: None})
     R.contract(f'{AGG}.flush', props=['C09'], params={},
                ensures=lambda c: {
                    'remainder_delivered_iff_positive': z3.If(c.oldf('_bytes_seen') > 0,
                                                              z3.And(delivered(c.trace) == c.oldf('_bytes_seen'), c.newf('_bytes_seen') == 0),
                                                              z3.And(delivered(c.trace) == 0, c.newf('_bytes_seen') == c.oldf('_bytes_seen')))},
                inline_callees=[f'{AGG}._trigger_callbacks'],
-               raises={'Exception': lambda c: {}}, raise_when={'Exception': lambda c: None})
+               raises={'Exception': only_propagates}, raise_when={'Exception': lambda c: None})
     R.contract(f'{AGG}._trigger_callbacks', params={}, loops={0: trivial_loop()}, inline=True)
 
 
